@@ -8,19 +8,20 @@ package object
 import (
 	"io"
 	"path/filepath"
+	"sync"
 )
 
 // NewEnv makes new environment of variables.
 func NewEnv() *Env {
 	s := make(map[SymHash]PanObject)
-	return &Env{s, nil}
+	return &Env{Store: s, lock: &sync.RWMutex{}}
 }
 
 // NewEnclosedEnv makes new environment of variables inside e.
 // It is used to make closure.
 func NewEnclosedEnv(e *Env) *Env {
 	s := make(map[SymHash]PanObject)
-	return &Env{s, e}
+	return &Env{Store: s, outer: e, lock: &sync.RWMutex{}}
 }
 
 // NewEnvWithConsts makes new global environment, which includes all standart objects.
@@ -71,13 +72,16 @@ func NewEnvWithConsts() *Env {
 func NewCopiedEnv(env *Env) *Env {
 	newStore := map[SymHash]PanObject{}
 	// copy all variables to new store
+	env.lock.RLock()
 	for k, v := range env.Store {
 		newStore[k] = v
 	}
+	env.lock.RUnlock()
 
 	return &Env{
 		Store: newStore,
 		outer: env.outer,
+		lock:  &sync.RWMutex{},
 	}
 }
 
@@ -85,11 +89,15 @@ func NewCopiedEnv(env *Env) *Env {
 type Env struct {
 	Store map[SymHash]PanObject
 	outer *Env
+	// NOTE: lock is necessary to make access to Store goroutine-safe
+	// (handlers of a background http server refer to variables of outer scopes
+	// while the main script keeps assigning there)
+	lock *sync.RWMutex
 }
 
 // Get fetches variable value from the environment.
 func (e *Env) Get(h SymHash) (PanObject, bool) {
-	obj, ok := e.Store[h]
+	obj, ok := e.GetInScope(h)
 
 	// if not found, search outer scope
 	if !ok && e.outer != nil {
@@ -99,14 +107,30 @@ func (e *Env) Get(h SymHash) (PanObject, bool) {
 	return obj, ok
 }
 
+// GetInScope fetches variable value from the environment without searching outer scopes.
+func (e *Env) GetInScope(h SymHash) (PanObject, bool) {
+	e.lock.RLock()
+	defer e.lock.RUnlock()
+
+	obj, ok := e.Store[h]
+	return obj, ok
+}
+
 // Set sets variable to the environment.
 func (e *Env) Set(h SymHash, obj PanObject) {
+	e.lock.Lock()
+	defer e.lock.Unlock()
+
 	e.Store[h] = obj
 }
 
 // Items returns all variables in the environment as obj.
 func (e *Env) Items() PanObject {
 	pairs := make(map[SymHash]Pair)
+
+	e.lock.RLock()
+	defer e.lock.RUnlock()
+
 	for h, obj := range e.Store {
 		strObj, ok := SymHash2Str(h)
 
